@@ -149,3 +149,72 @@ fn bounded_accessors_arc() {
         i += 1;
     }
 }
+
+// ---- C02 / C07 / C09, bounded: the Vec fast paths (impl_vec1!: rolling_apply, rolling_apply_idx, rolling2_apply, rolling2_apply_idx,
+// rolling_custom; proved in the Verus unit `drvo` - this is the backstop for rewrites that leave its anchors) and the DEFAULT slice
+// driver (rolling_custom / rolling_custom_iter on a VecDeque, which overrides nothing): arguments of every call, windows 1..=len+1
+macro_rules! vec_drivers {
+    ($name:ident, $n:literal) => {
+        #[kani::proof]
+        #[kani::unwind(7)]
+        fn $name() {
+            let a: [i32; $n] = [0i32; $n].map(|_| kani::any());
+            let v: Vec<i32> = a.to_vec();
+            let v2: Vec<i32> = a.to_vec();
+            let w: usize = kani::any();
+            kani::assume(1 <= w && w <= $n + 1);
+            let r1: Vec<(Option<i32>, i32)> = v.rolling_apply(w, |rm, x| (rm, x), None).unwrap();
+            let r2: Vec<(Option<usize>, usize, i32)> = v.rolling_apply_idx(w, |s, e, x| (s, e, x), None).unwrap();
+            let r3: Vec<(Option<(i32, i32)>, (i32, i32))> = v.rolling2_apply(&v2, w, |rm, x| (rm, x), None).unwrap();
+            let r4: Vec<(Option<usize>, usize, (i32, i32))> = v.rolling2_apply_idx(&v2, w, |s, e, x| (s, e, x), None).unwrap();
+            let r5: Vec<(usize, i32, i32)> = v.rolling_custom(w, |sl: &[i32]| (sl.len(), sl[0], sl[sl.len() - 1]), None).unwrap();
+            assert!(r1.len() == $n && r2.len() == $n && r3.len() == $n && r4.len() == $n && r5.len() == $n);
+            let mut i = 0;
+            while i < $n {
+                // what is reported as removed / as the window start at the final position of a window longer than the series is unspecified
+                let free = w > $n && i + 1 == $n;
+                let st = expected_start(i, w, $n);
+                assert!(r1[i].1 == a[i] && (free || r1[i].0 == st.map(|s| a[s])));
+                assert!(r2[i].1 == i && r2[i].2 == a[i] && (free || r2[i].0 == st));
+                assert!(r3[i].1 == (a[i], a[i]) && (free || r3[i].0 == st.map(|s| (a[s], a[s]))));
+                assert!(r4[i].1 == i && r4[i].2 == (a[i], a[i]) && (free || r4[i].0 == st));
+                let lo = if i + 1 >= w { i + 1 - w } else { 0 };
+                assert!(r5[i] == (i + 1 - lo, a[lo], a[i]));
+                i += 1;
+            }
+        }
+    };
+}
+vec_drivers!(bounded_drivers_vec_len1, 1);
+vec_drivers!(bounded_drivers_vec_len3, 3);
+
+macro_rules! deque_slice_driver {
+    ($name:ident, $n:literal) => {
+        #[kani::proof]
+        #[kani::unwind(7)]
+        fn $name() {
+            let a: [i32; $n] = [0i32; $n].map(|_| kani::any());
+            let d: VecDeque<i32> = a.iter().cloned().collect();
+            let w: usize = kani::any();
+            kani::assume(1 <= w && w <= $n + 2);
+            // the lazy form announces exactly what it yields, from the start
+            let it = d.rolling_custom_iter(w, |sl| sl.count());
+            assert!(it.size_hint() == ($n, Some($n)));
+            let mut cnt = 0usize;
+            for k in it { assert!(cnt < $n); let lo = if cnt + 1 >= w { cnt + 1 - w } else { 0 }; assert!(k == cnt + 1 - lo); cnt += 1; }
+            assert!(cnt == $n);
+            // the collecting form (default body: trusted collection of the lazy form)
+            let r: Vec<(usize, i32)> = d.rolling_custom(w, |mut sl| { let f = *sl.next().unwrap(); (1 + sl.count(), f) }, None).unwrap();
+            assert!(r.len() == $n);
+            let mut i = 0;
+            while i < $n {
+                let lo = if i + 1 >= w { i + 1 - w } else { 0 };
+                assert!(r[i] == (i + 1 - lo, a[lo]));
+                i += 1;
+            }
+        }
+    };
+}
+deque_slice_driver!(bounded_slice_driver_vecdeque_len0, 0);
+deque_slice_driver!(bounded_slice_driver_vecdeque_len1, 1);
+deque_slice_driver!(bounded_slice_driver_vecdeque_len3, 3);
